@@ -28,7 +28,7 @@ ASSUMPTIONS = ["descriptions are drawn from the argparse-expressible core so tha
                "pre-states 'stale'/'agreeing' are written with the emitters and black, as sync itself would write them"]
 CORE_ALLOWED = c05._CORE_ARGPARSE
 # pre-state / configuration shapes of open findings (excluded from the core by construction)
-FRONTIER_KNOBS = ("function_target_stale", "argparse_target_stale", "method_created")
+FRONTIER_KNOBS = ("function_target_stale", "argparse_target_stale", "method_created", "truth_returns", "truth_returns_default", "class_truth_returns", "placeholder_function")
 FLOORS = {"state=stale": 0.1, "state=agreeing": 0.2, "state=missing": 0.1, "state=empty": 0.1, "state=absent": 0.1, "method": 0.2, "two_kinds": 0.08}
 KEYS = project.KIND_KEYS
 
@@ -44,8 +44,8 @@ def mod():
 
 
 @st.composite
-def _ir(draw):
-    ir = draw(domain.ir_strategy(allowed=CORE_ALLOWED, min_params=1, max_params=4, argparse_only=True, base_exclude=()))
+def _ir(draw, forced=None):
+    ir = draw(domain.ir_strategy(allowed=CORE_ALLOWED, forced=forced, min_params=1, max_params=4, argparse_only=True, base_exclude=()))
     docd = [p for p in ir["params"] if "doc" in p and not p["name"].endswith("kwargs")]
     if docd and ir["params"][-1] is docd[-1] and draw(st.integers(0, 2)) == 0:
         # the last line of the generated class docstring (`    :cvar name: prose`) just below the width: the closing quotes
@@ -76,14 +76,19 @@ def _case(draw, knob):
         truth = "class"
     if knob == "method_created" and truth == "function":
         truth = "argparse_function"
+    if knob in ("truth_returns", "truth_returns_default") and truth == "class":
+        truth = draw(st.sampled_from(("function", "argparse_function")))  # a class truth with a return entry: next knob
+    if knob == "class_truth_returns":
+        truth = "class"
     others = [k for k in KEYS if k != truth]
     method = draw(st.booleans())
     states = {}
     for k in others:
         # core: every pre-state except the two shapes of the open finding "a FunctionDef target is never replaced"
-        opts = list(project.STATES) if k == "class" else [s_ for s_ in project.STATES if s_ != "stale"]
+        # ... and except a placeholder binding in a function-kind file (finding KF-N06, knob `placeholder_function`)
+        opts = list(project.STATES) if k == "class" else [s_ for s_ in project.STATES if s_ not in ("stale", "placeholder")]
         states[k] = draw(st.sampled_from(opts))
-    if method and states.get("function") in ("missing", "empty", "absent"):
+    if method and states.get("function") in ("missing", "empty", "absent", "placeholder"):
         # core: a method target must already exist in its class (creating it is a shape of its own)
         states["function"] = "agreeing"
     if draw(st.integers(0, 4)) == 0:
@@ -94,16 +99,23 @@ def _case(draw, knob):
         states["argparse_function"] = "stale"
     elif knob == "method_created":
         method = True
-        states["function"] = draw(st.sampled_from(("missing", "empty", "absent")))
+        states["function"] = draw(st.sampled_from(("missing", "empty", "absent")))  # (no placeholder for a method)
+    if knob == "placeholder_function":
+        # the only other file given binds the function's name to something else: `f_target = None`
+        fk = draw(st.sampled_from([k for k in others if k != "class"]))
+        states = {k: ("placeholder" if k == fk else None) for k in others}
+        method = False
     if all(v is None for v in states.values()):
         states[others[0]] = "agreeing"
     # the class target may be nested in another class (Outer.TargetClass); creating a nested class that does not exist yet
     # is the same shape as creating a method (finding KF-N03), so core: nested only when the class is already there
     nested = "class" in states and states["class"] in ("stale", "agreeing") and draw(st.booleans())
-    return {"ir": draw(_ir()), "stale_ir": draw(_ir()), "truth": truth, "states": states, "method": method, "nested": nested,
+    # a truth that documents a return value (typed and with prose; with a default expression for the second knob)
+    forced = {"truth_returns": "returns", "truth_returns_default": "returns_default", "class_truth_returns": "returns"}.get(knob)
+    return {"ir": draw(_ir(forced)), "stale_ir": draw(_ir()), "truth": truth, "states": states, "method": method, "nested": nested,
             "cli": draw(st.booleans()),
             # a second file of the truth's kind, listed AFTER the truth file: it is a target like any other
-            "mirror": truth == "class" and draw(st.booleans())}
+            "mirror": truth == "class" and draw(st.booleans()) and knob != "placeholder_function"}
 
 
 def strategy(mode, knob=None):
@@ -141,6 +153,10 @@ def case_tags(case):
         tags.add("argparse_target_stale")
     if case["method"] and case["states"].get("function") in ("missing", "empty", "absent"):
         tags.add("method_created")
+    if any(case["states"].get(k) == "placeholder" for k in ("function", "argparse_function")):
+        tags.add("placeholder_function")
+    if case["ir"].get("returns"):
+        tags.add("truth_has_returns")
     return tags
 
 
